@@ -38,9 +38,10 @@ const (
 	kTryLock
 	kRLock
 	kTryRLock
+	kClear
 )
 
-var kNames = []string{"LockKey", "TryLockKey", "RLockKey", "TryRLockKey"}
+var kNames = []string{"LockKey", "TryLockKey", "RLockKey", "TryRLockKey", "ClearKey"}
 
 type kstep struct {
 	kind  int
@@ -136,6 +137,11 @@ func c09tierb(c *core.Ctx) {
 				kind = r.Pick(4, 2, 4, 2)
 			}
 			progsDesc[w] = append(progsDesc[w], kstep{kind: kind, key: r.Intn(nk), holds: r.Intn(3)})
+			if r.Chance(1, 5) {
+				// ClearKey of a key that nobody holds or awaits (keys nk, nk+1 are never
+				// locked by the workers): allowed at any time, must not disturb other keys
+				progsDesc[w] = append(progsDesc[w], kstep{kind: kClear, key: nk + r.Intn(2)})
+			}
 		}
 	}
 	s := sched.New(r.Fork(), r.Intn(3))
@@ -188,6 +194,12 @@ func c09tierb(c *core.Ctx) {
 		w := w
 		progs[w] = func(int) {
 			for _, st := range progsDesc[w] {
+				if st.kind == kClear {
+					km.clear(st.key)
+					events = append(events, fmt.Sprintf("w%d ClearKey(k%d)", w, st.key))
+					c.Count("tierb_clearkey_of_unused_key", 1)
+					continue
+				}
 				curOp[w] = st
 				free := writers[st.key] == 0 && (st.kind == kRLock || st.kind == kTryRLock || readers[st.key] == 0)
 				uncontended := othersOn(st.key, w) == 0
@@ -352,21 +364,17 @@ func c09free(c *core.Ctx) {
 			nextKey += 2
 			bDone := make(chan struct{})
 			aHolds := make(chan struct{})
-			timedOut := make(chan struct{})
-			wg.Add(2)
+			var hw sync.WaitGroup
+			hw.Add(2)
 			go func() {
-				defer wg.Done()
+				defer hw.Done()
 				km.acquire(kLock, k1)
 				close(aHolds)
-				select {
-				case <-bDone:
-				case <-time.After(5 * time.Second):
-					close(timedOut)
-				}
+				<-bDone // plain receive: if B can never get k2, this is a provable deadlock
 				km.release(kLock, k1)
 			}()
 			go func() {
-				defer wg.Done()
+				defer hw.Done()
 				<-aHolds
 				kd := kLock
 				if km.rw && seeds[0]&1 == 1 {
@@ -385,17 +393,29 @@ func c09free(c *core.Ctx) {
 				km.release(kd, k2)
 				close(bDone)
 			}()
-			wg.Wait()
-			select {
-			case <-timedOut:
-				// wall-clock: not a verdict by itself; the same dependency is decided
-				// logically by the serialized mode. Do not burn time on it again.
+			if st, where := core.WaitOrDeadlock(&hw, 2*time.Second, 30*time.Second); st != "done" {
+				if st == "deadlock" {
+					flag("free:cross-key-deadlock", "goroutine A holds key k1 and waits for B; B can never acquire the different key k2: "+where)
+					crossKeyStuck.Store(true)
+					break
+				}
 				crossKeyStuck.Store(true)
-				c.Inconclusive("hold-and-wait across two keys did not complete within 5 s (decided logically in tierb)")
-			default:
+				c.Inconclusive("hold-and-wait across two keys did not complete (no deadlock proven)")
+				break
 			}
 			c.Count("free_cross_key_rounds", 1)
 			continue
+		}
+		if shape == 1 {
+			// a side goroutine clears keys that nobody ever locks
+			wg.Add(1)
+			go func() {
+				defer wg.Done()
+				<-start
+				for i := 0; i < 20; i++ {
+					km.clear(-1 - i%3)
+				}
+			}()
 		}
 		for g := 0; g < ng; g++ {
 			g := g
